@@ -45,8 +45,18 @@ def t1_callee_context(ctx: Ctx):
         ks = [k for k in calls_in(ast.Module(body=body, type_ignores=[])) if call_name(k) == 'ContextStmt']
         return ks[0] if len(ks) == 1 else None
     k1 = ctxstmt(c.body)
-    good = k1 is not None and norm(k1.args[0]) == 'UnderscoreId()' and norm(k1.args[1]).startswith('ForeignVal(ast.ctx') and norm(k1.args[2]) == 'ast.body'
-    ctx.check(good, INLINE, c, q, 'callee declares a context -> its body is wrapped in that context', f'got {norm(k1) if k1 is not None else None}')
+    # the wrapped value is the declared context -- converted first when it is an FPCore description of one, which a
+    # `with` block cannot round under
+    wrapped = norm(k1.args[1].args[0]) if k1 is not None and isinstance(k1.args[1], ast.Call) and call_name(k1.args[1]) == 'ForeignVal' and k1.args[1].args else None
+    local = {norm(s.targets[0]): s.value for s in c.body if isinstance(s, ast.Assign) and len(s.targets) == 1}
+    src = local.get(wrapped) if wrapped else None
+    denotes = False
+    if isinstance(src, ast.IfExp):
+        denotes = norm(src.test) == 'isinstance(ast.ctx, FPCoreContext)' and norm(src.body) == 'ast.ctx.to_context()' and norm(src.orelse) == 'ast.ctx'
+    good = k1 is not None and norm(k1.args[0]) == 'UnderscoreId()' and denotes and norm(k1.args[2]) == 'ast.body'
+    ctx.check(good, INLINE, c, q, 'callee declares a context -> its body is wrapped in that context (an FPCore description converted to the context it denotes)',
+              f'got {norm(k1) if k1 is not None else None} with {wrapped} = {norm(src) if src is not None else "?"}: inlining a callee declared with FPCoreContext(precision=\'binary32\') '
+              'yields `with <FPCoreContext>:`, and the inlined program raises TypeError where the original returns')
     inner = c.orelse[0] if c.orelse and isinstance(c.orelse[0], ast.If) else None
     good = inner is not None and norm(inner.test) == 'ctx.is_ctx_expr'
     k2 = ctxstmt(inner.body) if inner is not None else None
@@ -478,6 +488,8 @@ RULES = [
 from ..selftest import Mutant  # noqa: E402
 
 MUTANTS = [
+    Mutant('fpcore-description-wrapped-as-it-is', INLINE, "            callee_ctx = ast.ctx.to_context() if isinstance(ast.ctx, FPCoreContext) else ast.ctx\n", "            callee_ctx = ast.ctx\n", 'C09.T1',
+           'finding F92 before its repair: the inlined program raises TypeError'),
     Mutant('inliner-ignores-the-evaluation-order', INLINE, "            reorders=_reorders(e, self._order, self.def_use),\n", "", 'C09.S2',
            'finding F89 before its repair: r = xs[0] + bump(xs) inlines to 22 instead of 12'),
     Mutant('order-test-trusts-an-impure-callee', INLINE, "    if Purity.analyze(e.fn.ast) and all(", "    if all(", 'C09.S2'),
@@ -497,7 +509,7 @@ MUTANTS = [
     Mutant('comp-element-unmasked', INLINE, "        elt = self._visit_expr(e.elt, inner)", "        elt = self._visit_expr(e.elt, ctx)", 'C09.S1'),
     Mutant('while-cond-flag-dropped', INLINE, "_Ctx(ctx.stmts, False, in_while_cond=True)", "_Ctx(ctx.stmts, False)", 'C09.S1'),
     Mutant('conditional-flag-not-read', INLINE, "    if in_conditional is not None:\n        return (", "    if False:\n        return (", 'C09.S1'),
-    Mutant('callee-ctx-ignored', INLINE, "        if ast.ctx is not None:\n            # overriding context\n            stmt = ContextStmt(UnderscoreId(), ForeignVal(ast.ctx, None), ast.body, ast.loc)\n            ctx.stmts.append(stmt)\n        elif ctx.is_ctx_expr:",
+    Mutant('callee-ctx-ignored', INLINE, "        if ast.ctx is not None:\n            # overriding context (an FPCore description of one is what it\n            # denotes: a `with` block takes a context, not a description)\n            callee_ctx = ast.ctx.to_context() if isinstance(ast.ctx, FPCoreContext) else ast.ctx\n            stmt = ContextStmt(UnderscoreId(), ForeignVal(callee_ctx, None), ast.body, ast.loc)\n            ctx.stmts.append(stmt)\n        elif ctx.is_ctx_expr:",
            "        if ctx.is_ctx_expr:", 'C09.T1'),
     Mutant('header-call-under-ambient', INLINE, "stmt = ContextStmt(UnderscoreId(), ForeignVal(REAL, None), ast.body, ast.loc)", "stmt = ContextStmt(UnderscoreId(), ForeignVal(ast.ctx, None), ast.body, ast.loc)", 'C09.T1'),
     Mutant('header-args-under-ambient', INLINE, "                if ctx.is_ctx_expr and not isinstance(arg, Var):", "                if False:", 'C09.T1',
